@@ -335,3 +335,145 @@ Proof.
   - destruct IH as [k Hk]; [inversion P; auto|]. rewrite Hk. exists (Z.to_nat (snd pn) + k).
     rewrite line_bytes_aligned by (inversion P; auto). inversion P; subst. nia.
 Qed.
+
+(* ---------------------------------------------------------------- the meaning only depends on the pixel colours *)
+(* picture from the list of pixel values in data order *)
+Definition gcol {A} (w h : Z) (il : bool) (cols : list A) : option (list (list A)) :=
+  if (w <=? 0)%Z || (h <=? 0)%Z then None else
+  match split_px (pix_layout w h il) cols with
+  | Some lines => assemble w h il lines
+  | None => None
+  end.
+
+Lemma gsem_aligned_cols w h il pc (B : nat) (pxs : list (list Z)) :
+  0 < B -> Forall (fun px => length px = B) pxs ->
+  gsem w h (8 * Z.of_nat B) il pc (concat pxs) = finish w h (gcol w h il (map (fun px => pc (sbits_of_bytes px)) pxs)).
+Proof.
+  intros HB Hu. rewrite (gsem_aligned w h il pc B pxs HB Hu). unfold gcol.
+  destruct ((w <=? 0)%Z || (h <=? 0)%Z); [reflexivity|].
+  rewrite split_px_map. destruct (split_px (pix_layout w h il) pxs); reflexivity.
+Qed.
+
+(* two byte-aligned images whose pixels have the same colours, in order, mean the same *)
+Theorem samecols_gsem w h il pc pc' (B B' : nat) (pxs pxs' : list (list Z)) :
+  0 < B -> 0 < B' ->
+  Forall (fun px => length px = B) pxs -> Forall (fun px => length px = B') pxs' ->
+  map (fun px => pc' (sbits_of_bytes px)) pxs' = map (fun px => pc (sbits_of_bytes px)) pxs ->
+  gsem w h (8 * Z.of_nat B') il pc' (concat pxs') = gsem w h (8 * Z.of_nat B) il pc (concat pxs).
+Proof. intros HB HB' Hu Hu' E. rewrite !gsem_aligned_cols by auto. rewrite E. reflexivity. Qed.
+
+(* ---------------------------------------------------------------- relational lift *)
+Lemma gcol_map {A B} (f : A -> B) w h il (cols : list A) :
+  gcol w h il (map f cols) = option_map (map (map f)) (gcol w h il cols).
+Proof.
+  unfold gcol. destruct ((w <=? 0)%Z || (h <=? 0)%Z); [reflexivity|].
+  rewrite split_px_map. destruct (split_px (pix_layout w h il) cols) as [lines|]; cbn [option_map]; [|reflexivity].
+  apply assemble_map.
+Qed.
+
+Lemma all_some_in {A} (l : list (option A)) r : all_some l = Some r -> forall x, In x r -> In (Some x) l.
+Proof.
+  revert r. induction l as [|[a|] t IH]; intros r H x Hx; cbn [all_some] in H; try discriminate.
+  - injection H as <-. destruct Hx.
+  - destruct (all_some t) as [r'|] eqn:E; [|discriminate]. injection H as <-. destruct Hx as [<-|Hx]; [left; reflexivity|right; eapply IH; eauto].
+Qed.
+
+Lemma spec_pixel_at_in {A} (passes : list (list (list A))) x y a :
+  spec_pixel_at passes x y = Some a -> exists pass row, In pass passes /\ In row pass /\ In a row.
+Proof.
+  unfold spec_pixel_at. destruct (nth_error passes _) as [pass|] eqn:E1; [|discriminate].
+  destruct (nth_error pass _) as [row|] eqn:E2; [|discriminate]. intros E3.
+  exists pass, row. split; [|split]; eapply nth_error_In; eassumption.
+Qed.
+
+Lemma pass_rows_in {A} p (plines : list (option Z * Z * list A)) row :
+  In row (pass_rows p plines) -> exists l, In l plines /\ snd l = row.
+Proof.
+  unfold pass_rows. intros H. apply in_flat_map in H. destruct H as [l [Hl H]]. exists l. split; [exact Hl|].
+  destruct (fst (fst l)) as [q|]; [destruct (q =? p)%Z|]; cbn in H; try tauto.
+Qed.
+
+Lemma assemble_in {A} w h il (plines : list (option Z * Z * list A)) rows :
+  assemble w h il plines = Some rows -> forall row a, In row rows -> In a row -> exists l, In l plines /\ In a (snd l).
+Proof.
+  unfold assemble. destruct il.
+  - unfold spec_deinterlace. intros H row a Hrow Ha.
+    pose proof (all_some_in _ _ H row Hrow) as H1. apply in_map_iff in H1. destruct H1 as [y [Hy _]].
+    pose proof (all_some_in _ _ Hy a Ha) as H2. apply in_map_iff in H2. destruct H2 as [x [Hx _]].
+    apply spec_pixel_at_in in Hx. destruct Hx as (pass & r & Hp & Hr & Har).
+    apply in_map_iff in Hp. destruct Hp as [p [<- _]]. apply pass_rows_in in Hr. destruct Hr as [l [Hl <-]]. eauto.
+  - intros H row a Hrow Ha. injection H as <-. apply in_map_iff in Hrow. destruct Hrow as [l [<- Hl]]. eauto.
+Qed.
+
+Lemma gcol_in {A} w h il (cols : list A) rows : gcol w h il cols = Some rows ->
+  forall row a, In row rows -> In a row -> In a cols.
+Proof.
+  unfold gcol. destruct ((w <=? 0)%Z || (h <=? 0)%Z); [discriminate|].
+  destruct (split_px (pix_layout w h il) cols) as [lines|] eqn:Es; [|discriminate]. intros H row a Hrow Ha.
+  destruct (assemble_in _ _ _ _ _ H row a Hrow Ha) as [l [Hl Hal]].
+  pose proof (split_px_shape _ _ _ Es) as Sh. rewrite Forall_forall in Sh. apply (Sh l Hl). exact Hal.
+Qed.
+
+Lemma map_fst_combine {A B} (a : list A) (b : list B) : length a = length b -> map fst (combine a b) = a.
+Proof. revert b. induction a as [|x a IH]; intros [|y b] H; cbn in *; try lia; [reflexivity|]. rewrite IH by lia. reflexivity. Qed.
+Lemma map_snd_combine {A B} (a : list A) (b : list B) : length a = length b -> map snd (combine a b) = b.
+Proof. revert b. induction a as [|x a IH]; intros [|y b] H; cbn in *; try lia; [reflexivity|]. rewrite IH by lia. reflexivity. Qed.
+
+Lemma Forall2_len {A B} (R : A -> B -> Prop) l l' : Forall2 R l l' -> length l = length l'.
+Proof. induction 1; cbn; congruence. Qed.
+
+(* two byte-aligned images whose pixels are pairwise related: both meanings come from one table of
+   pairs of pixel colours, every entry of which is related *)
+Theorem rel_gsem (R : option rgba16 -> option rgba16 -> Prop) w h il pc pc' (B B' : nat) (pxs pxs' : list (list Z)) :
+  0 < B -> 0 < B' ->
+  Forall (fun px => length px = B) pxs -> Forall (fun px => length px = B') pxs' ->
+  Forall2 (fun px px' => R (pc (sbits_of_bytes px)) (pc' (sbits_of_bytes px'))) pxs pxs' ->
+  exists orows : option (list (list (option rgba16 * option rgba16))),
+    gsem w h (8 * Z.of_nat B) il pc (concat pxs) = finish w h (option_map (map (map fst)) orows) /\
+    gsem w h (8 * Z.of_nat B') il pc' (concat pxs') = finish w h (option_map (map (map snd)) orows) /\
+    forall rows, orows = Some rows -> Forall (Forall (fun z => R (fst z) (snd z))) rows.
+Proof.
+  intros HB HB' Hu Hu' HF.
+  set (c1 := map (fun px => pc (sbits_of_bytes px)) pxs). set (c2 := map (fun px => pc' (sbits_of_bytes px)) pxs').
+  assert (Hlen : length c1 = length c2) by (unfold c1, c2; rewrite !map_length; eapply Forall2_len; eauto).
+  exists (gcol w h il (combine c1 c2)). split; [|split].
+  - rewrite gsem_aligned_cols by auto. fold c1. rewrite <- gcol_map, map_fst_combine by exact Hlen. reflexivity.
+  - rewrite gsem_aligned_cols by auto. fold c2. rewrite <- gcol_map, map_snd_combine by exact Hlen. reflexivity.
+  - intros rows Hrows. apply Forall_forall. intros row Hrow. apply Forall_forall. intros z Hz.
+    pose proof (gcol_in _ _ _ _ _ Hrows row z Hrow Hz) as Hin.
+    clear -HF Hin. unfold c1, c2 in Hin. induction HF as [|px px' t t' Hr _ IH]; cbn in Hin; [destruct Hin|].
+    destruct Hin as [<-|Hin]; [exact Hr|auto].
+Qed.
+
+Lemma all_some_all {A} (l : list (option A)) r : all_some l = Some r -> Forall (fun o => o <> None) l.
+Proof.
+  revert r. induction l as [|[a|] t IH]; intros r H; cbn [all_some] in H; try discriminate; [constructor|].
+  destruct (all_some t) eqn:E; [|discriminate]. constructor; [discriminate|eauto].
+Qed.
+
+Lemma finish_some_all w h crows pic : finish w h (Some crows) = Some pic -> Forall (Forall (fun o => o <> None)) crows.
+Proof.
+  unfold finish. destruct (all_some (map all_some crows)) as [px|] eqn:E; [|discriminate]. intros _.
+  revert px E. induction crows as [|r t IH]; intros px E; [constructor|]. cbn [map all_some] in E.
+  destruct (all_some r) as [r'|] eqn:Er; [|discriminate]. destruct (all_some (map all_some t)) eqn:Et; [|discriminate].
+  constructor; [eapply all_some_all; eauto|eauto].
+Qed.
+
+(* refinement: wherever the first image has a colour, the second has the same *)
+Theorem refine_gsem w h il pc pc' (B B' : nat) (pxs pxs' : list (list Z)) pic :
+  0 < B -> 0 < B' ->
+  Forall (fun px => length px = B) pxs -> Forall (fun px => length px = B') pxs' ->
+  Forall2 (fun px px' => pc (sbits_of_bytes px) <> None -> pc' (sbits_of_bytes px') = pc (sbits_of_bytes px)) pxs pxs' ->
+  gsem w h (8 * Z.of_nat B) il pc (concat pxs) = Some pic ->
+  gsem w h (8 * Z.of_nat B') il pc' (concat pxs') = Some pic.
+Proof.
+  intros HB HB' Hu Hu' HF Hsem.
+  destruct (rel_gsem (fun a b => a <> None -> b = a) w h il pc pc' B B' pxs pxs' HB HB' Hu Hu' HF) as (orows & E1 & E2 & HR).
+  rewrite E2. rewrite E1 in Hsem. destruct orows as [rows|]; [|exact Hsem]. cbn [option_map] in *.
+  rewrite <- Hsem. f_equal. f_equal.
+  pose proof (finish_some_all _ _ _ _ Hsem) as Hall. specialize (HR rows eq_refl).
+  clear -Hall HR. induction rows as [|row t IH]; [reflexivity|]. cbn [map] in *.
+  inversion Hall as [|? ? Ha Hall']; subst. inversion HR as [|? ? Hr HR']; subst. rewrite IH by auto. f_equal.
+  clear -Ha Hr. induction row as [|z r IH]; [reflexivity|]. cbn [map] in *.
+  inversion Ha as [|? ? Hz Ha']; subst. inversion Hr as [|? ? Hrz Hr']; subst. rewrite IH by auto. f_equal. apply Hrz. exact Hz.
+Qed.
